@@ -450,6 +450,24 @@ func (r *rig) run(c Case) Obs {
 		} else {
 			o.HasRet, o.Returned = true, r.indices(out.Allocations)
 		}
+	case "allocate":
+		// the allocation function itself, with every input free: also an
+		// excluded peer that is not a current holder (no public path builds
+		// such a call today; the function is where the property's
+		// "exclusion lists" live)
+		mn, mx := c.eff()
+		var excl []peer.ID
+		if c.Excluded >= 0 {
+			excl = []peer.ID{r.pids[c.Excluded]}
+		}
+		var out []peer.ID
+		var err error
+		o.Panic = recovered(func() { out, err = r.p.C.VerifAllocate(r.ctx, theCid, pre, mn, mx, excl, r.peers(c.Prio)) })
+		if err != nil {
+			o.Failed, o.Err = true, err.Error()
+		} else {
+			o.HasRet, o.Returned = true, r.indices(out)
+		}
 	case "remove":
 		var err error
 		o.Panic = recovered(func() { err = r.p.C.PeerRemove(r.ctx, r.pids[c.Excluded]) })
